@@ -330,6 +330,13 @@ func checkSequence(c *vm.Ctx, r *vm.Rand, spy *poolSpy, big bool) {
 	bs := &inject.ByteSrc{B: in}
 	pr := &inject.PlainReader{R: bytes.NewReader(in)}
 	plain := r.Bool()
+	// a third of the plain sources deliver short reads (a socket handing over a frame in segments): 1..3 bytes, then
+	// a few hundred, then 4096 at a time
+	cr := &inject.ChunkReader{B: in, Plan: []int{1 + r.Intn(3), 2, 300 + r.Intn(300), 1, 4096, 7}}
+	chunked := plain && !useConn && r.Intn(3) == 0
+	if chunked {
+		c.Cover("source.short-reads")
+	}
 	var conn *mcnet.Conn
 	if useConn {
 		conn = mcnet.WrapConn(&fakeConn{r: bytes.NewReader(in)})
@@ -338,6 +345,9 @@ func checkSequence(c *vm.Ctx, r *vm.Rand, spy *poolSpy, big bool) {
 	consumed := func() int {
 		if useConn {
 			return len(in) - conn.Socket.(*fakeConn).r.Len()
+		}
+		if chunked {
+			return cr.Pos
 		}
 		if plain {
 			return int(pr.N)
@@ -369,6 +379,8 @@ func checkSequence(c *vm.Ctx, r *vm.Rand, spy *poolSpy, big bool) {
 			switch {
 			case useConn:
 				err = conn.ReadPacket(&recv)
+			case chunked:
+				err = recv.UnPack(cr, th)
 			case plain:
 				err = recv.UnPack(pr, th)
 			default:
